@@ -410,6 +410,11 @@ fn gds_case(src: &mut Src, ctx: &mut Ctx) -> Result<(), String> {
     let views = src.u64();
     for &i in &listing {
         let mut s = gds21::GdsStruct::new(name_of(i));
+        // most tools stream a cell's own geometry before its references (every other struct here does)
+        if (views >> (i % 48)) & 1 == 1 {
+            s.elems.push(gds21::GdsElement::GdsBoundary(gds21::GdsBoundary { layer: 1, datatype: 0, xy: vec![gds21::GdsPoint::new(0, 0), gds21::GdsPoint::new(4, 0), gds21::GdsPoint::new(4, 4), gds21::GdsPoint::new(0, 0)], ..Default::default() }));
+            s.elems.push(gds21::GdsElement::GdsTextElem(gds21::GdsTextElem { string: "lbl".into(), layer: 2, texttype: 0, xy: gds21::GdsPoint::new(1, 1), ..Default::default() }));
+        }
         for (k, d) in g[i].iter().enumerate() {
             if twice(views, i, k) {
                 s.elems.push(gds21::GdsElement::GdsStructRef(gds21::GdsStructRef { name: name_of(*d), xy: gds21::GdsPoint::new(7, 7), ..Default::default() }));
